@@ -44,6 +44,22 @@ CHECKS = {
             'Trusted: Lean kernel + standard axioms; XReal has no rounding (levels alpha/(m-k) compared bit-exactly by '
             'the correspondence instead); numpy argsort may rank ties differently (compared per tie group).',
             '5 (C06)'),
+    'C16': ('Lean 4 proof: refinement of the positional representation (RList inverted index, swap-with-last removal) '
+            'to a node/edge-set spec by induction over edit histories + differential correspondence of the compiled '
+            'model (all editing operations, graft/flatten, reduction/closure, queries) with DepGraph + node/edge-set '
+            'oracle with reachability; every digraph on <= 4 nodes in thorough',
+            'For every history of add_node/remove_node/add_dependency/remove_dependency from the empty graph the '
+            'model denotes exactly the nodes and edges of the mathematical graph and raises exactly the prescribed '
+            'exceptions (history_refines, history_errors, via addNode/addDep/removeDep/removeNode_refines and the '
+            'representation invariant GInv); every RList operation preserves the index invariant (rlist_*_inv, '
+            'rlist_getIndex_spec); dependencies() reads the abstraction (dependencies_spec). merge, copy, invert, +, '
+            'graft, flatten, topological_sort, transitive reduction/closure, dependees, initial/terminal, <=, == are in '
+            'the executable model and checked against DepGraph and against the set-level oracle on every run, but their '
+            'theorems are not proved yet (history_refines is the partial form of the first sentence).',
+            'Trusted: Lean kernel + standard axioms; correspondence sampled (exhaustive <= 4 nodes in thorough); node '
+            'identity = Python id(); topological order compared for validity, not equality; graft/flatten only on '
+            'acyclic expansions; c16_pinned_refuted keeps the pinned graft (A19) refuted.',
+            '5 (C16)'),
 }
 
 NOT_YET = 'check not built yet in this round (planned in DESIGN.md section 5); no claim is made'
